@@ -142,8 +142,8 @@ def run_case(ctx, shape, recursive, linear):
     if nontriv and ctx._cli_left > 0 and ctx.rng.random() < 0.5:
         ctx._cli_left -= 1
         cli_case(ctx, shape, case, model, zval, cot, recursive)
-    from .jac import early_internal
-    iso = ['jpp-internal-node-outside-some-step'] if any(early_internal(r) for r in shape['rules']) else []
+    from .jac import jpp_tags
+    iso = jpp_tags(shape)
     for name in ('real', 'log'):
         for method, jp in [(m_, False) for m_ in methods] + ([('fixed-point', True)] if name == 'real' else []):
             subset = ctx.rng.random() < 0.3
